@@ -45,16 +45,31 @@ func main() {
 	runPure()
 	r := run.Rand
 	for i := 0; i < run.Scale(4000, 120000); i++ {
-		historyCase(r.U64())
+		sd := r.U64()
+		if !streamDead("history") {
+			historyCase(sd)
+		}
 	}
 	for i := 0; i < run.Scale(4000, 100000); i++ {
-		onceCase(r.U64())
+		sd := r.U64()
+		if !streamDead("once") {
+			onceCase(sd)
+		}
 	}
 	for i := 0; i < run.Scale(2500, 60000); i++ {
-		setCase(r.U64())
+		sd := r.U64()
+		if !streamDead("set") {
+			setCase(sd)
+		}
 	}
 	for i := 0; i < run.Scale(1200, 40000); i++ {
-		mixCase(r.U64())
+		sd := r.U64()
+		if !streamDead("do") {
+			mixCase(sd)
+		}
+	}
+	if len(wedged) > 0 {
+		return // the oracle failures are the verdict; the floors of abandoned streams are moot
 	}
 	checkCoverage()
 }
@@ -65,7 +80,7 @@ func checkCoverage() {
 		"settrace/set-shared", "settrace/set-single", "settrace/mix-shared", "settrace/mix-single",
 		"history/redirect-followed", "history/token-redirect", "history/host-alias", "history/realm-on-registry-host",
 		"history/preset-authorization", "history/token-revoked", "history/challenge-outside-model-parser",
-		"history/failure-injected", "history/mode-change", "challenge/bearer", "allscopes",
+		"history/failure-injected", "history/mode-change", "mixjob/shared", "mixjob/single", "redirect-policy-case", "once-slot/free", "once-slot/closed", "challenge/bearer", "allscopes",
 	}
 	prefixes := []string{"history/shared/mode=2/sends=3/", "history/single/mode=2/sends=3/", "history/none/mode=2/sends=2/fetch=1/",
 		"history/shared/mode=1/sends=1/fetch=0/=ok", "once/n=", "scopes/len=", "actions/len=", "mix/", "set/fetches-saved="}
